@@ -6,6 +6,14 @@
    output: in_class (generator sanity), canonical order, denotes, the warnings specification and
    equality of the compiled databases across all reorderings of one file.
 
+   END TO END (the TEXT is the reference, not the definitions the tree's parser produced): every
+   text is also parsed by the extracted parser model ([text_defs] of Dbc/CompileText.v = Dbc/Parser.v's
+   [parse_bytes], with the unicode classes of the UNI lines).  When the model-parsed definitions equal
+   the dumped ones, everything established from the dumped definitions holds verbatim for the text.
+   When they differ, class / denotes / warnings are evaluated against the definitions the TEXT denotes
+   (clauses text_denotes, text_warnings_exact) and [compile_text] is compared with generate.Compile; the
+   detail names the first differing definition, which localises the fault (parser vs compiler).
+
    Verdict lines (vlib.standard_run):
      PFAIL <obs> || clause=<c> ...     a property predicate is false on the implementation's output
      DISAGREE <obs> || model=...       implementation <> model, all predicates hold
@@ -13,6 +21,62 @@
 open Model
 open Common
 open Dbcdump
+
+(* ------------------------------------------------------------------ the parser model's oracle *)
+let letters : (int * int) list ref = ref []
+let digits : (int * int) list ref = ref []
+let letters_a = ref [||]
+let digits_a = ref [||]
+let frozen = ref false
+let freeze () =
+  if not !frozen then begin
+    letters_a := Array.of_list (List.rev !letters);
+    digits_a := Array.of_list (List.rev !digits);
+    frozen := true
+  end
+let in_ranges (a : (int * int) array) (r : int) : bool =
+  let lo = ref 0 and hi = ref (Array.length a - 1) and found = ref false in
+  while (not !found) && !lo <= !hi do
+    let mid = (!lo + !hi) / 2 in
+    let l, h = a.(mid) in
+    if r < l then hi := mid - 1 else if r > h then lo := mid + 1 else found := true
+  done;
+  !found
+let is_letter_hi (z : z) = in_ranges !letters_a (int_of_z z)
+let is_digit_hi (z : z) = in_ranges !digits_a (int_of_z z)
+
+let bytes_of_hex (h : string) : z list =
+  List.init (String.length h / 2) (fun i -> z_of_int ((hexval h.[2 * i] * 16) + hexval h.[(2 * i) + 1]))
+
+let def_name = function
+  | DVersion _ -> "VERSION" | DNewSymbols _ -> "NS_" | DBitTiming _ -> "BS_" | DNodes _ -> "BU_"
+  | DValueTable _ -> "VAL_TABLE_" | DMessage _ -> "BO_" | DSignal _ -> "SG_" | DSignalValueType _ -> "SIG_VALTYPE_"
+  | DMessageTransmitters _ -> "BO_TX_BU_" | DValueDescriptions _ -> "VAL_" | DEnvVar _ -> "EV_"
+  | DEnvVarData _ -> "ENVVAR_DATA_" | DComment _ -> "CM_" | DAttribute _ -> "BA_DEF_" | DAttributeDefault _ -> "BA_DEF_DEF_"
+  | DAttributeValue _ -> "BA_" | DUnknown _ -> "unknown"
+
+(* first difference between the dumped definitions (Parser.Defs()) and the ones the text denotes *)
+let diff_defs (a : def list) (b : def list) : string =
+  let describe d = Printf.sprintf "%s@%s" (def_name d) (string_of_pos (def_pos d)) in
+  let rec go i a b =
+    match (a, b) with
+    | [], [] -> "equal"
+    | x :: a', y :: b' ->
+        if x = y then go (i + 1) a' b'
+        else
+          let extra =
+            match (x, y) with
+            | DAttributeValue u, DAttributeValue v when u.av_int <> v.av_int ->
+                Printf.sprintf " IntValue %s / %s" (i64hex_of_z u.av_int) (i64hex_of_z v.av_int)
+            | DAttributeValue u, DAttributeValue v when u.av_float <> v.av_float ->
+                Printf.sprintf " FloatValue %s / %s" (hex_of_z u.av_float) (hex_of_z v.av_float)
+            | _ -> ""
+          in
+          Printf.sprintf "definition #%d %s / %s%s" i (describe x) (describe y) extra
+    | x :: _, [] -> Printf.sprintf "definition #%d %s / none" i (describe x)
+    | [], y :: _ -> Printf.sprintf "definition #%d none / %s" i (describe y)
+  in
+  go 0 a b
 
 (* ------------------------------------------------------------------ reading the database dump *)
 let cur_of l = { toks = split_ws l }
@@ -168,6 +232,10 @@ let ref_db : database option ref = ref None
 let ref_warn : (string * string) list ref = ref []
 
 let n_class = ref 0
+let stride = ref (if Array.length Sys.argv > 1 then int_of_string Sys.argv.(1) else 32)
+let n_text_parsed = ref 0
+let n_text_defs_equal = ref 0
+let n_text_defs_differ = ref 0
 let n_perm_compared = ref 0
 let n_warn_cases = ref 0
 let n_warnings = ref 0
@@ -233,6 +301,44 @@ let finish_block () =
     let srt l = List.sort compare l in
     let agree_db = model_db = impl_db in
     let agree_warn = srt model_warn_s = srt impl_warn in
+    (* the text as the reference: the definitions it denotes (parser model) *)
+    freeze ();
+    (* the parser model costs about 1 microsecond per byte and up to a millisecond per many-digit float
+       literal: it is run on the original order of every file and on every [stride]-th reordering (a
+       reordered text consists of the same lines); for the other texts the dumped definitions stand in *)
+    let parse_it = variant = 0 || (fileno + variant) mod !stride = 0 in
+    let tdefs = if parse_it then text_defs is_letter_hi is_digit_hi (bytes_of_hex (String.sub !text 2 (String.length !text - 2))) else Some defs in
+    let same_defs = tdefs = Some defs in
+    if parse_it then begin
+      incr n_text_parsed;
+      if same_defs then incr n_text_defs_equal else incr n_text_defs_differ
+    end;
+    let parser_note =
+      match tdefs with
+      | None -> "the parser model rejects the text"
+      | Some td ->
+          "Parser.Defs() differs from the definitions the text denotes (the fault is in the parser, the compiler was given other definitions than the text's): first difference (Parser.Defs() / text) "
+          ^ diff_defs defs td
+    in
+    (* compile_text = compile after text_defs; when the definitions are the same its result is model_db *)
+    let text_result =
+      match tdefs with
+      | None -> None
+      | Some td -> if same_defs then Some (model_db, model_warn_s)
+          else let db, w = compile impl_db.db_source_file td in
+            Some (db, List.map (fun (k, p) -> (kind_name k, string_of_pos p)) w)
+    in
+    let agree_text = match text_result with Some (db, w) -> db = impl_db && srt w = srt impl_warn | None -> false in
+    let text_detail () =
+      (match text_result with
+       | None -> "compile_text fails"
+       | Some (db, w) ->
+           if db <> impl_db then "database: first difference (compile_text / generate.Compile): " ^ diff_db db impl_db
+           else Printf.sprintf "warnings: compile_text [%s] generate.Compile [%s]"
+               (String.concat "," (List.map (fun (k, p) -> k ^ "@" ^ p) w))
+               (String.concat "," (List.map (fun (k, p) -> k ^ "@" ^ p) impl_warn)))
+      ^ " ;; " ^ parser_note
+    in
     let nsig = List.fold_left (fun a m -> a + List.length m.msg_signals) 0 impl_db.db_messages in
     note_case ~nontrivial:(impl_db.db_messages <> []) (kind ^ ":" ^ what) (Printf.sprintf "file=%d variant=%d %s" fileno variant what);
     bump (Printf.sprintf "messages_%s" (let n = List.length impl_db.db_messages in if n = 0 then "0" else if n <= 4 then "1-4" else if n <= 12 then "5-12" else "13+"));
@@ -240,23 +346,41 @@ let finish_block () =
     List.iter (fun (k, _) -> bump ("warning_" ^ k)) impl_warn;
     n_warnings := !n_warnings + List.length impl_warn;
     if impl_warn <> [] then incr n_warn_cases;
+    (* numeric paths: how large are the INT attribute values the compiler consumes *)
+    List.iter (function
+        | DAttributeValue a when (a.av_object = OtMessage || a.av_object = OtSignal) ->
+            let m = if Z.ltb a.av_int Z0 then Z.sub Z0 a.av_int else a.av_int in
+            if Z.ltb (z_of_hex "20000000000000") m then bump "int_attr_above_2^53"
+            else if Z.ltb (z_of_hex "100000000") m then bump "int_attr_2^32..2^53"
+            else if Z.ltb (z_of_hex "1000000") m then bump "int_attr_2^24..2^32"
+            else bump "int_attr_upto_2^24"
+        | _ -> ()) (match tdefs with Some td -> td | None -> defs);
     if kind = "class" then begin
       incr n_class;
-      if not (in_class defs) then
+      (* the class is a property of the TEXT: decided on the definitions the text denotes *)
+      let cdefs =
+        match tdefs with
+        | Some td -> td
+        | None -> failwith (Printf.sprintf "generator produced a text the parser model rejects: file=%d variant=%d" fileno variant)
+      in
+      if not (in_class cdefs) then
         failwith (Printf.sprintf "generator produced a file outside the compile class: file=%d variant=%d" fileno variant);
       let fails = ref [] in
       let pf clause detail = fails := (clause, detail) :: !fails in
+      (* when Parser.Defs() is not what the text denotes the clauses are evaluated against the text *)
+      let cl c = if same_defs then c else "text_" ^ c in
+      let note d = if same_defs then d else d ^ " ;; " ^ parser_note in
       (* P1: canonical order *)
       if not (canonicalb impl_db) then pf "canonical" "nodes by name, messages by id, signals by (start, mux), value descriptions by value";
       (* P2: denotes (decided as in CompileProofs.denotes_check_sound) *)
-      let lhs = denotes_check_lhs impl_db and rhs = denotes_check_rhs defs impl_db in
-      if lhs <> rhs then pf "denotes" ("first difference (implementation / denoted): " ^ diff_db lhs rhs);
+      let lhs = denotes_check_lhs impl_db and rhs = denotes_check_rhs cdefs impl_db in
+      if lhs <> rhs then pf (cl "denotes") (note ("first difference (implementation / denoted): " ^ diff_db lhs rhs));
       (* P3: warnings exactly for the unresolved metadata lines *)
-      let spec_w = List.map (fun (k, p) -> (kind_name k, string_of_pos p)) (spec_warnings defs) in
+      let spec_w = List.map (fun (k, p) -> (kind_name k, string_of_pos p)) (spec_warnings cdefs) in
       if srt spec_w <> srt impl_warn then
-        pf "warnings_exact" (Printf.sprintf "implementation [%s] specification [%s]"
+        pf (cl "warnings_exact") (note (Printf.sprintf "implementation [%s] specification [%s]"
                                (String.concat "," (List.map (fun (k, p) -> k ^ "@" ^ p) impl_warn))
-                               (String.concat "," (List.map (fun (k, p) -> k ^ "@" ^ p) spec_w)));
+                               (String.concat "," (List.map (fun (k, p) -> k ^ "@" ^ p) spec_w))));
       (* P4: order independence: same database and same warnings (as a multiset, identified by the
          definition they are about) as the original order of this file *)
       let by_pos = List.map (fun l -> match split_ws l with _ :: _ :: p :: _ -> (p, strip_pos l) | _ -> ("", l))
@@ -273,24 +397,33 @@ let finish_block () =
         if !ref_warn <> stable then pf "compile_perm_warnings" "warnings differ from the original order as a multiset"
       end;
       if !fails <> [] then pfail obs (List.rev !fails)
-      else if not (agree_db && agree_warn) then
+      else if same_defs && not (agree_db && agree_warn) then
         disagree obs
           (if not agree_db then "database: first difference (model / implementation): " ^ diff_db model_db impl_db
            else Printf.sprintf "warnings: model [%s] implementation [%s]" (show_warnings model_warn)
                   (String.concat "," (List.map (fun (k, p) -> k ^ "@" ^ p) impl_warn)))
+      else if not agree_text then disagree obs ("end to end: " ^ text_detail ())
     end
     else begin
-      (* outside the class only the tie model = implementation is checked *)
-      if not (agree_db && agree_warn) then
+      (* outside the class only the ties are checked: compile model = implementation on the dumped
+         definitions, and compile_text = generate.Compile on the text *)
+      if same_defs && not (agree_db && agree_warn) then
         disagree obs
           (if not agree_db then "database: first difference (model / implementation): " ^ diff_db model_db impl_db
            else Printf.sprintf "warnings: model [%s] implementation [%s]" (show_warnings model_warn)
                   (String.concat "," (List.map (fun (k, p) -> k ^ "@" ^ p) impl_warn)))
+      else if not agree_text then disagree obs ("end to end: " ^ text_detail ())
     end
   end
 
 let handle line =
-  if String.length line >= 5 && String.sub line 0 5 = "CASE " then begin header := line; block := []; text := "" end
+  if String.length line >= 4 && String.sub line 0 4 = "UNI " then begin
+    match split_ws line with
+    | [ "UNI"; "L"; lo; hi ] -> letters := (int_of_string ("0x" ^ lo), int_of_string ("0x" ^ hi)) :: !letters
+    | [ "UNI"; "D"; lo; hi ] -> digits := (int_of_string ("0x" ^ lo), int_of_string ("0x" ^ hi)) :: !digits
+    | _ -> failwith ("bad UNI line: " ^ line)
+  end
+  else if String.length line >= 5 && String.sub line 0 5 = "CASE " then begin header := line; block := []; text := "" end
   else if String.length line >= 5 && String.sub line 0 5 = "TEXT " then text := String.sub line 5 (String.length line - 5)
   else if line = "END" then finish_block ()
   else block := line :: !block
@@ -313,8 +446,8 @@ let () =
   let hs = Hashtbl.fold (fun k v acc -> Printf.sprintf "\"%s\":%d" (json_escape k) v :: acc) hist [] in
   let ss = List.map (fun s -> "\"" ^ json_escape s ^ "\"") (List.rev !samples) in
   Printf.printf
-    "STATS {\"cases\":%d,\"mismatches\":%d,\"distinct_nontrivial\":%d,\"kinds\":{%s},\"samples\":[%s],\"class_cases\":%d,\"permuted_orders_compared\":%d,\"cases_with_warnings\":%d,\"warnings_total\":%d,\"predicate_failures\":%d,\"disagreements\":%d,\"failed_clauses\":{%s},\"histogram\":{%s}}\n"
+    "STATS {\"cases\":%d,\"mismatches\":%d,\"distinct_nontrivial\":%d,\"kinds\":{%s},\"samples\":[%s],\"class_cases\":%d,\"texts_parsed_by_the_parser_model\":%d,\"texts_with_parser_defs_equal_to_model\":%d,\"texts_with_parser_defs_different\":%d,\"permuted_orders_compared\":%d,\"cases_with_warnings\":%d,\"warnings_total\":%d,\"predicate_failures\":%d,\"disagreements\":%d,\"failed_clauses\":{%s},\"histogram\":{%s}}\n"
     !n_cases !n_mismatch !n_nontrivial (String.concat "," (List.sort compare ks)) (String.concat "," ss)
-    !n_class !n_perm_compared !n_warn_cases !n_warnings !n_pfail !n_disagree
+    !n_class !n_text_parsed !n_text_defs_equal !n_text_defs_differ !n_perm_compared !n_warn_cases !n_warnings !n_pfail !n_disagree
     (String.concat "," (Hashtbl.fold (fun k v acc -> Printf.sprintf "\"%s\":%d" (json_escape k) v :: acc) clause_count []))
     (String.concat "," (List.sort compare hs))
